@@ -122,6 +122,13 @@ type c12World struct {
 	bufU, bufI uint8
 	lost       map[uint32]bool // ids whose buffered update was overwritten before they were opened
 
+	// mirror of the RFC 7540 scheduler's idle-node retention list (ids), used only for
+	// the class counters "open of a retained idle node" / "idle node evicted"
+	maxIdle        int
+	maxSeenID      uint32
+	idleList       []uint32
+	keepMFS        bool // drain with the current max frame size (C13: many pieces)
+
 	closedQueued   bool // some stream was closed with frames queued
 	poppedAfterCQ  bool
 	split          bool
@@ -146,6 +153,12 @@ func c12NewWorld(c c12Case, rec *vp.Rec) (*c12World, error) {
 		streams: map[uint32]*c12Stream{}, nextOdd: 1, nextEven: 2, lost: map[uint32]bool{}}
 	w.sc.flow.add(c.ConnWnd)
 	w.connWnd = c.ConnWnd
+	switch c.Sched {
+	case "rfc7540":
+		w.maxIdle = 10
+	case "rfc7540-small-throttle":
+		w.maxIdle = 2
+	}
 	return w, nil
 }
 
@@ -252,8 +265,15 @@ func c12Same(got, want writeFramer) bool {
 
 var errC12Skip = errors.New("op not applicable in this state")
 
-func (w *c12World) apply(op c12Op) error {
-	err := w.apply1(op)
+func (w *c12World) apply(op c12Op) (err error) {
+	// A panic inside the scheduler is reported with a deterministic message (no
+	// stack addresses), otherwise rapid cannot shrink the history.
+	defer func() {
+		if p := recover(); p != nil {
+			err = w.errf("scheduler panicked: %v", p)
+		}
+	}()
+	err = w.apply1(op)
 	if err == errC12Skip {
 		w.rec.Class("op-skipped")
 		return nil
@@ -281,6 +301,16 @@ func (w *c12World) apply1(op c12Op) error {
 		s.st.flow.conn = &w.sc.flow
 		s.st.flow.add(w.c.InitWnd)
 		w.logf("Open(%d pusher=%d u=%d i=%d)", id, pusher, s.u, s.i)
+		if id > w.maxSeenID {
+			w.maxSeenID = id
+		}
+		for _, x := range w.idleList {
+			if x == id {
+				w.rec.Class("7540-open-of-retained-idle-node")
+				w.idleList = c12Remove(w.idleList, id)
+				break
+			}
+		}
 		w.ws.OpenStream(id, OpenStreamOptions{PusherID: pusher, priority: PriorityParam{urgency: s.u, incremental: s.i}})
 		if w.bufID == id {
 			s.u, s.i = w.bufU, w.bufI
@@ -354,6 +384,15 @@ func (w *c12World) apply1(op c12Op) error {
 			w.rec.Class("adjust-idle")
 		}
 		w.logf("Adjust(%d dep=%d excl=%v w=%d u=%d i=%d)", id, dep, op.Excl, op.W, p.urgency, p.incremental)
+		if w.maxIdle > 0 && id > w.maxSeenID {
+			// the RFC 7540 scheduler creates an idle node and retains at most maxIdle of them
+			w.maxSeenID = id
+			if len(w.idleList) == w.maxIdle {
+				w.rec.Class("7540-idle-node-evicted")
+				w.idleList = append(w.idleList[:0:0], w.idleList[1:]...)
+			}
+			w.idleList = append(w.idleList, id)
+		}
 		w.ws.AdjustStream(id, p)
 		// model of the RFC 9218 side; op.U/op.I are the expected values
 		eu, ei := op.U&7, op.I&1
@@ -647,17 +686,28 @@ func (w *c12World) pop1() (c12Popped, error) {
 
 // drain opens all windows and pops until the scheduler is empty; everything the
 // model still holds must come out, and nothing else.
-func (w *c12World) drain() error {
+func (w *c12World) drain() (err error) {
+	defer func() {
+		if p := recover(); p != nil {
+			err = w.errf("scheduler panicked: %v", p)
+		}
+	}()
 	const big = 1 << 24
 	w.logf("DRAIN")
 	w.sc.flow.add(big - w.sc.flow.n)
 	w.connWnd = w.sc.flow.n
-	w.sc.maxFrameSize = 16384
+	if !w.keepMFS {
+		w.sc.maxFrameSize = 16384
+	}
 	total := len(w.control)
 	for _, s := range w.openStreams() {
 		s.st.flow.add(1<<20 - s.st.flow.n)
 		s.wnd = s.st.flow.n
-		total += len(s.q)
+		for _, f := range s.q {
+			// every successful Pop delivers a whole frame or at least one byte (the
+			// RFC 7540 write throttle may cut pieces smaller than the frame size)
+			total += 1 + (len(f.data) - f.off)
+		}
 	}
 	for k := 0; ; k++ {
 		if k > total+1 {
@@ -691,6 +741,14 @@ func c12Run(c c12Case, r *vp.Rec, setup func(w *c12World)) error {
 	}
 	if err := w.drain(); err != nil {
 		return err
+	}
+	switch n := w.stepsPerformed; {
+	case n < 10:
+		r.Class("history-ops<10")
+	case n < 30:
+		r.Class("history-ops-10..29")
+	default:
+		r.Class("history-ops>=30")
 	}
 	if w.closedQueued && w.poppedAfterCQ {
 		r.Class("closed-with-queued-then-popped")
@@ -733,6 +791,11 @@ func c12OpGen(prio bool) *rapid.Generator[c12Op] {
 		frames = c12Weighted[string]("data", 14, "headers", 3, "swu", 1, "ping", 1, "rst", 1)
 	}
 	urg := c12Weighted[uint8](uint8(3), 5, uint8(0), 1, uint8(1), 2, uint8(2), 1, uint8(4), 1, uint8(5), 1, uint8(6), 1, uint8(7), 1)
+	inc := rapid.IntRange(0, 1)
+	if prio {
+		urg = c12Weighted[uint8](uint8(3), 7, uint8(1), 2, uint8(5), 2, uint8(0), 1, uint8(2), 1, uint8(4), 1, uint8(6), 1, uint8(7), 1)
+		inc = rapid.SampledFrom([]int{0, 1, 1})
+	}
 	size := rapid.OneOf(rapid.IntRange(0, 48), rapid.IntRange(0, 48), rapid.IntRange(0, 12), rapid.SampledFrom([]int{0, 1, 1023, 1024, 1025, 2047, 2600}))
 	if prio {
 		size = rapid.IntRange(0, 60)
@@ -745,7 +808,7 @@ func c12OpGen(prio bool) *rapid.Generator[c12Op] {
 			op.Sel = rapid.IntRange(0, 7).Draw(t, "sel")
 			op.Gap = rapid.SampledFrom([]int{0, 0, 0, 1, 2}).Draw(t, "gap")
 			op.U = urg.Draw(t, "u")
-			op.I = uint8(rapid.IntRange(0, 1).Draw(t, "i"))
+			op.I = uint8(inc.Draw(t, "i"))
 		case "close":
 			op.Sel = rapid.IntRange(0, 7).Draw(t, "sel")
 		case "adj":
@@ -758,7 +821,7 @@ func c12OpGen(prio bool) *rapid.Generator[c12Op] {
 				op.Field, op.U, op.I = pf.f, pf.u, pf.i
 			} else {
 				op.U = urg.Draw(t, "u")
-				op.I = uint8(rapid.IntRange(0, 1).Draw(t, "i"))
+				op.I = uint8(inc.Draw(t, "i"))
 			}
 		case "push":
 			op.F = frames.Draw(t, "f")
@@ -795,6 +858,13 @@ func c12CaseGen(t *rapid.T, scheds []string, prio bool, maxOps int) c12Case {
 	c.InitWnd = int32(rapid.SampledFrom([]int{0, 1, 5, 16, 30, 30, 100, 3000, 65535}).Draw(t, "initWnd"))
 	c.ConnWnd = int32(rapid.SampledFrom([]int{0, 7, 40, 100, 100, 500, 5000, 65535, 1 << 20}).Draw(t, "connWnd"))
 	c.MFS = int32(rapid.SampledFrom([]int{1, 2, 3, 4, 7, 16, 16, 1024, 16384}).Draw(t, "mfs"))
-	c.Ops = rapid.SliceOfN(c12OpGen(prio), 1, maxOps).Draw(t, "ops")
+	// rapid's slices average ~5 elements; a slice of slices gives histories of a few
+	// dozen operations and still shrinks towards the empty history.
+	for _, chunk := range rapid.SliceOfN(rapid.SliceOfN(c12OpGen(prio), 1, 16), 1, maxOps/8).Draw(t, "ops") {
+		c.Ops = append(c.Ops, chunk...)
+	}
+	if len(c.Ops) > maxOps {
+		c.Ops = c.Ops[:maxOps]
+	}
 	return c
 }
